@@ -3,7 +3,7 @@
    fingerprint) spelling machine, rendered by TLC.  Shared by C03, C04, C06. *)
 EXTENDS C04
 CONSTANTS GDepth
-Gen(d) == UNION {{[b |-> b, x |-> NRender(w), plain |-> w = PlainV(b)] : w \in NReach({PlainV(b)}, GDepth)} : b \in BaseSet}
+Gen(d) == UNION {{[b |-> b, x |-> NRender(w), plain |-> w = PlainV(b), sw |-> w.x.sfx # <<>>] : w \in NReach({PlainV(b)}, GDepth)} : b \in BaseSet}
 \* every documented irrelevant item (not only the sample used by the InsertTracking action): each exact key, each prefix key with a
 \* suffix, every key=value combo, AMP items, the digit key - inserted first and last into the plain spelling of every base
 One == <<61, 49>>                                                     \* "=1"
@@ -16,7 +16,7 @@ AllItems(d) ==
   \cup UNION {{ND.amp_combos[i][1] \o <<61>> \o val : val \in ToSet(ND.amp_combos[i][2])} : i \in 1..Len(ND.amp_combos)}
   \cup (IF FpMode THEN {k \o <<61, 102, 114>> : k \in ToSet(ND.lang_keys)} ELSE {})
 WithItem(b, pos, it) == [u |-> Plain(b), x |-> [NoExtras EXCEPT !.ins = <<<<pos, it>>>>]]
-GenItems(d) == UNION {{[b |-> b, x |-> NRender(WithItem(b, pos, it)), plain |-> FALSE] : it \in AllItems(0), pos \in {0, 9}} : b \in BaseSet}
+GenItems(d) == UNION {{[b |-> b, x |-> NRender(WithItem(b, pos, it)), plain |-> FALSE, sw |-> FALSE] : it \in AllItems(0), pos \in {0, 9}} : b \in BaseSet}
 GenInit == v = <<>> /\ depth = 0 /\ out0 = <<>> /\ JsonSerialize(IOEnv.GEN_OUT, [spellings |-> SetToSeq(Gen(0) \cup (IF GDepth = 1 THEN GenItems(0) ELSE {}))])
 GenNext == FALSE /\ UNCHANGED vars
 =============================================================================
